@@ -25,6 +25,7 @@ import (
 	"github.com/glebziz/fs_db/internal/utils/grpc/interceptors/server"
 	"github.com/glebziz/fs_db/internal/utils/vhook"
 	"github.com/glebziz/fs_db/internal/utils/wpool"
+	externalDb "github.com/glebziz/fs_db/pkg/external/db"
 	inlineDb "github.com/glebziz/fs_db/pkg/inline/db"
 )
 
@@ -67,6 +68,16 @@ func SetDiskFree(f DiskFreeFn)     { vhook.SetDiskFree(f) }
 
 // InlineContainer returns the DI container of an inline handle.
 func InlineContainer(d fs_db.DB) *Container { return inlineDb.VerifContainer(d) }
+
+// TxHandle returns a transaction handle naming an arbitrary transaction id
+// on an inline or external client.
+func TxHandle(d fs_db.DB, id string) fs_db.Tx {
+	if t := inlineDb.VerifTx(d, id); t != nil {
+		return t
+	}
+
+	return externalDb.VerifTx(d, id)
+}
 
 // Collect runs one pass of the old-version collector, exactly what the
 // scheduled job calls.
